@@ -230,8 +230,15 @@ Fixpoint filter_map {A B} (f : A -> option B) (l : list A) : list B :=
   | x :: r => match f x with Some y => y :: filter_map f r | None => filter_map f r end
   end.
 
+(* append the states of [ns] that are not yet in [acc] *)
+Fixpoint add_new (acc ns : list state) : list state :=
+  match ns with
+  | [] => acc
+  | n :: r => if existsb (state_eqb n) acc then add_new acc r else add_new (acc ++ [n]) r
+  end.
+
 Definition tau1 (ss : list state) : list state :=
-  dedup (ss ++ flat_map (fun s => filter_map (step s) (hidden_cands s)) ss).
+  add_new ss (flat_map (fun s => filter_map (step s) (hidden_cands s)) ss).
 
 Fixpoint tau (fuel : nat) (ss : list state) : list state :=
   match fuel with
@@ -251,10 +258,12 @@ Fixpoint accepts_from (fuel : nat) (ss : list state) (tr : list label) : bool :=
       if isnil ss' then false else accepts_from fuel ss' r
   end.
 
-(* fuel: at most two hidden steps per connection plus two global ones can
-   be pending between two observed events *)
+(* fuel: every hidden step strictly decreases [measure] (below), which is at
+   most 4 + 13 * number of connections, and a trace contains one Accept per
+   connection; theorem C07_acceptor_complete shows this fuel always suffices
+   (the closure normally stops much earlier, when it adds nothing new) *)
 Definition accepts (tr : list label) : bool :=
-  accepts_from (2 * length tr + 4) [init] tr.
+  accepts_from (13 * length tr + 4) [init] tr.
 
 (* index of the first label of [tr] at which no model execution can follow
    (for the DISAGREE message) *)
@@ -266,7 +275,7 @@ Fixpoint reject_at (fuel : nat) (ss : list state) (tr : list label) (i : nat) : 
       if isnil ss' then Some i else reject_at fuel ss' r (S i)
   end.
 Definition rejected_at (tr : list label) : option nat :=
-  reject_at (2 * length tr + 4) [init] tr 0.
+  reject_at (13 * length tr + 4) [init] tr 0.
 
 (* ------------------------------------------------------------------ *)
 (* Generic temporal patterns over a trace                              *)
